@@ -146,15 +146,25 @@ class World:
         def m(lst):
             return [None if x is None else ids.get(id(x), 9999) for x in lst]
         snap = {"kind": [], "vlinks": [], "lverts": [], "vunis": [], "uverts": [], "ulaws": [], "lapp": [], "rules": []}
+
+        def rd(o, public, private, default):
+            """the object's state as its PUBLIC read accessor reports it (what a user observes; survives a rename of the
+            private field); the private field only for objects whose accessor cannot answer (half-constructed ones)"""
+            try:
+                return getattr(o, public)
+            except Exception:  # noqa: BLE001
+                return getattr(o, private, default)
         for o in self.objs:
             k = kind_of(o)
             snap["kind"].append(k)
-            snap["vlinks"].append(m(o._links) if k in VERTEX_KINDS and hasattr(o, "_links") else [])
-            snap["lverts"].append(m(o._vertices) if k in LINK_KINDS and hasattr(o, "_vertices") else [])
-            snap["vunis"].append(m(getattr(o, "_universes", [])))
-            snap["uverts"].append(m(o._vertices) if k == "KUniverse" and hasattr(o, "_vertices") else [])
-            snap["ulaws"].append(ids.get(id(o._laws), 9999) if k == "KUniverse" and getattr(o, "_laws", None) is not None else None)
-            snap["lapp"].append(ids.get(id(o._applies_to), 9999) if k == "KLaws" and getattr(o, "_applies_to", None) is not None else None)
+            snap["vlinks"].append(m(rd(o, "links", "_links", [])) if k in VERTEX_KINDS else [])
+            snap["lverts"].append(m(rd(o, "vertices", "_vertices", [])) if k in LINK_KINDS else [])
+            snap["vunis"].append(m(rd(o, "universes", "_universes", [])))
+            snap["uverts"].append(m(rd(o, "vertices", "_vertices", [])) if k == "KUniverse" else [])
+            laws = rd(o, "laws", "_laws", None) if k == "KUniverse" else None
+            snap["ulaws"].append(ids.get(id(laws), 9999) if laws is not None else None)
+            app = rd(o, "applies_to", "_applies_to", None) if k == "KLaws" else None
+            snap["lapp"].append(ids.get(id(app), 9999) if app is not None else None)
             snap["rules"].append(rules_read(o) if k == "KLaws" else None)
         return snap
 
@@ -441,7 +451,7 @@ def gen_history(rng, weights, nops, seed_ops=None):
                 if vs:
                     op = ["UNL", pick(vs), pick(vs), rng.random() < 0.5]
                     # mostly unlink pairs that ARE joined (the two ends of an existing link), so something is removed
-                    snap_l = [o._vertices for o in w.objs if kind_of(o) in LINK_KINDS]
+                    snap_l = [list(o.vertices) for o in w.objs if kind_of(o) in LINK_KINDS]
                     joined = [x for x in snap_l if len(x) >= 2 and x[0] is not None and x[1] is not None]
                     if joined and rng.random() < 0.7:
                         x = pick(joined)
